@@ -210,7 +210,7 @@ def _run(prop, tier, test, seed, nshards, binary, outdir, t0):
                 pass
             if st is not None and st.get("hung"):
                 problems.append("shard %d: a case exceeded the hang budget: %s" % (i, st["hung"][:500]))
-            elif fatal and PROPS[prop][3] and os.path.exists(jp) and "/repo/" in fatal:
+            elif fatal and PROPS[prop][3] and os.path.exists(jp) and "github.com/osteele/liquid" in fatal:
                 # the Go runtime itself caught two goroutines in one map inside the library: that is a data
                 # race whether or not the schedule repeats when the case is run again
                 with open(jp) as f:
